@@ -277,7 +277,7 @@ fn layer_a(thorough: bool) -> (Acc, Vec<(String, String)>) {
 }
 
 const PRELUDE: &str = r#"
-#![allow(unused, non_snake_case)]
+#![allow(warnings)]
 use mina::prelude::*;
 
 #[derive(Animate, Clone, Debug, Default, PartialEq)]
